@@ -124,7 +124,7 @@ pub fn run(ctx: &Ctx) -> Report {
         return rep;
     }
     let collected: Mutex<Vec<(Vec<u8>, String)>> = Mutex::new(Vec::new());
-    rep.run_stage("bytes", raw_case, ctx.cases(60_000, 800_000), |c: &RawCase, st: &mut Stats| {
+    rep.run_stage("bytes", raw_case, ctx.cases(60_000, 2_400_000), |c: &RawCase, st: &mut Stats| {
         let b = unhex(&c.hex);
         if st.want_sample() && b.len() > 8 && b.len() < 64 {
             st.sample(|| json!({"input_hex": c.hex, "uuid": sha1::mapping_uuid(&b)}));
@@ -136,7 +136,7 @@ pub fn run(ctx: &Ctx) -> Report {
         Ok(())
     });
     let cfg = GenCfg { plain_sourcefile_headers: true, ..GenCfg::default() };
-    rep.run_stage("mappings", move || super::common::map_case(&cfg), ctx.cases(20_000, 300_000), |c: &super::common::MapCase, st: &mut Stats| {
+    rep.run_stage("mappings", move || super::common::map_case(&cfg), ctx.cases(20_000, 900_000), |c: &super::common::MapCase, st: &mut Stats| {
         let lf = c.file.render(&Render { eol: Eol::Lf, final_eol: true });
         let crlf = c.file.render(&Render { eol: Eol::CrLf, final_eol: true });
         let a = check_bytes(&lf, st)?;
